@@ -1039,10 +1039,10 @@ package internal
 // an escape of an unreserved ASCII byte is decoded, any other escape gets upper-case hex digits, every
 // other byte (including a stray '%') is copied.
 //@ spec func np(s string, i int) string
-//@ axiom np-empty: forall s string :: np(s, 0) == ""
-//@ axiom np-copy: forall s string, i int :: 0 <= i && i < len(s) && !isTriplet(s, i) ==> np(s, i + 1) == app1(np(s, i), s[i])
-//@ axiom np-decode: forall s string, i int :: 0 <= i && i < len(s) && isTriplet(s, i) && unreservedB(tripletVal(s, i)) ==> np(s, i + 3) == app1(np(s, i), tripletVal(s, i))
-//@ axiom np-upper: forall s string, i int :: 0 <= i && i < len(s) && isTriplet(s, i) && !unreservedB(tripletVal(s, i)) ==> np(s, i + 3) == np(s, i) + pctUpper(tripletVal(s, i))
+//@ axiom np-empty: forall s string {np(s, 0)} :: np(s, 0) == ""
+//@ axiom np-copy: forall s string, i int {np(s, i)} :: 0 <= i && i < len(s) && !isTriplet(s, i) ==> np(s, i + 1) == app1(np(s, i), s[i])
+//@ axiom np-decode: forall s string, i int {np(s, i)} :: 0 <= i && i < len(s) && isTriplet(s, i) && unreservedB(tripletVal(s, i)) ==> np(s, i + 3) == app1(np(s, i), tripletVal(s, i))
+//@ axiom np-upper: forall s string, i int {np(s, i)} :: 0 <= i && i < len(s) && isTriplet(s, i) && !unreservedB(tripletVal(s, i)) ==> np(s, i + 3) == np(s, i) + pctUpper(tripletVal(s, i))
 
 //@ func isUnreserved
 //@   property C03
